@@ -419,7 +419,8 @@ OnMove(e) ==
             \cup Chk(e.ufs = 0 /\ e.ups = 0, "C12", "MoveCtorNoUpstreamTraffic", <<e.ufs, e.ups>>)
             \cup NoStrayReports("move") \cup NoLeakReport("move"))
      ELSE LET to == Obj(e.to)
-              old == LiveBlocksOf(st, to.src)
+              \* a moved-from target (command mz) holds nothing; its record still names the source that travelled on
+              old == IF to.status = "moved" THEN {} ELSE LiveBlocksOf(st, to.src)
           IN Result([st EXCEPT !.objs[e.to + 1] = from, !.objs[e.from + 1].status = "moved",
                                !.objs[e.from + 1].net = 0,
                                !.live = moveLive, !.pend = <<>>, !.inj = 0],
